@@ -69,7 +69,7 @@ def gen_scenario(rng, big=False):
 
 
 def gen(rng, tier):
-    n = 48 if tier == "quick" else 600
+    n = 160 if tier == "quick" else 1500
     return [gen_scenario(rng, big=(tier != "quick" and i % 3 == 0)) for i in range(n)], {"scenarios": n}
 
 
